@@ -140,6 +140,10 @@ func iterOK(i *Iter) bool {
 	return 0 <= i.off && 0 <= i.addNext && i.off <= 1<<57 && i.addNext <= 1<<57 && i.off+i.addNext <= 1<<57
 }
 
+func iterOKv(i Iter) bool {
+	return 0 <= i.off && 0 <= i.addNext && i.off <= 1<<57 && i.addNext <= 1<<57 && i.off+i.addNext <= 1<<57
+}
+
 func sameFloat(a, b float64) bool { return math.Float64bits(a) == math.Float64bits(b) }
 
 // float64 values whose truncation toward zero is representable in the target type
@@ -1259,9 +1263,12 @@ func appended1(res, dst []byte, a byte) bool {
 	return len(res) == len(dst)+1 && res[len(dst)] == a && forall(0, len(dst), func(j int) bool { return res[j] == dst[j] })
 }
 
+// Iterators stored in an Elements list were produced by Object.Parse / FindKey of this package: they satisfy the
+// iterator invariant and belong to a tape with a string buffer. ASSUMED (the memory model keeps slices of structs opaque).
+//@ typeinv Element stored: iterOKv(v.Iter) && v.Iter.tape.Strings != nil
+
 //@ func (Elements).MarshalJSONBuffer
 //@   props C10
-//@   requires forall(0, len(e.Elements), func(j int) bool { return iterOK(&e.Elements[j].Iter) && e.Elements[j].Iter.tape.Strings != nil })
 //@   ensures empty: implies(len(e.Elements) == 0, result1 == nil && appended2(result0, old(dst), '{', '}'))
 //@   invariant 0 implies(len(e.Elements) == 0, appended1(dst, old(dst), '{'))
 //@   safe [C05]
@@ -1280,4 +1287,19 @@ func marshalMeasure(i *Iter) int {
 //@   ensures inv: iterOK(i)
 //@   invariant 0 iterOK(i) && len(stack) >= 1 && stack[0] == 0
 //@   decreases 0 marshalMeasure(i)
+//@   assertafter `strconv.AppendInt(dst, v, 10)` int: i.t == TagInteger && i.off < len(i.tape.Tape) && v == int64(i.tape.Tape[i.off])
+//@   assertafter `strconv.AppendUint(dst, v, 10)` uint: i.t == TagUint && i.off < len(i.tape.Tape) && v == i.tape.Tape[i.off]
+//@   assertafter `appendFloat(dst, v)` float: i.t == TagFloat && i.off < len(i.tape.Tape) && sameFloat(v, math.Float64frombits(i.tape.Tape[i.off]))
+//@   assertafter `append(dst, []byte("null")...)` null: i.t == TagNull
+//@   assertafter `append(dst, []byte("true")...)` true: i.t == TagBoolTrue
+//@   assertafter `append(dst, []byte("false")...)` false: i.t == TagBoolFalse
+//@   assertafter `append(dst, '{')` objopen: i.t == TagObjectStart
+//@   assertafter `append(dst, '}')` objclose: i.t == TagObjectEnd
+//@   assertafter `append(dst, '[')` arropen: i.t == TagArrayStart
+//@   assertafter `append(dst, ']')` arrclose: i.t == TagArrayEnd
+//@   assertafter `append(dst, ',')` separator: (stack[len(stack)-1] == 1 && i.t != TagArrayEnd) || (stack[len(stack)-1] == 2 && i.t != TagObjectEnd)
+//@   assertafter `append(dst, '\n')` newline: stack[len(stack)-1] == 3 && i.t == TagRoot && len(stack) > 1
+//@   assertafter `append(dst, '"', ':')` key: stack[len(stack)-1] == 2 && i.t == TagString
+//@   assertafter `append(dst, '"')` quote: i.t == TagString
+//@   assertafter `escapeBytes(dst, sb)` body: i.t == TagString
 //@   safe [C05]
